@@ -139,9 +139,21 @@ def run(ck, ctx):
         v = rfd.value
         gen = v.args[1] if v is not None and is_ext_call(v, "builtins.dict") and len(v.args) == 2 else None
         fl = (gen.extra or {}).get("generator") if gen is not None else None
+        # whatever its shape, the flattener may keep nothing between calls (a mutable default argument or a module
+        # level accumulator makes a later header the union of all configurations flattened before)
+        from .effects import writes as _writes
+        wg = _writes(rfd, kinds=("global",))
+        for e, hit in wg:
+            what = "; ".join(sorted({str((x.extra or {}).get("global")) for x in hit}))[:200]
+            ck.ob("R16.1", f"the flattener keeps no state between calls [{e.data.get('how')} at {e.where()}]", False, e.node,
+                  e.funcs()[-1] if e.funcs() else "flatten_dict", f"in-place write to {what}: entries of an earlier "
+                  "configuration stay in every later header", construct="flatten_dict: state kept between calls")
+        ck.ob("R16.1", "the flattener writes to no object that outlives the call", not wg, v if v is not None else d,
+              "flatten_dict", f"{len(wg)} such write(s)")
         ok_fd = fl is not None and [x for x in gen.args[1:]] == [d, pk, sep]
         ck.ob("R16.1", "flatten_dict collects all items emitted by the flattening generator for (d, parent_key, sep)",
-              ok_fd, v if v is not None else d, "flatten_dict", g.show(v, 3) if v is not None else "no value")
+              ok_fd if ok_fd else None, v if v is not None else d, "flatten_dict",
+              g.show(v, 3) if v is not None else "no value")
         if not ok_fd:
             return
         I.analyse_generators.add(fl.qualname)
